@@ -61,7 +61,7 @@ def cmd_group(a):
     # shrink distinct violations (this process has the right PYTHONHASHSEED)
     seen = {}
     for v in agg["violations"]:
-        key = (v["kind"], v["site"], tuple(sorted((v.get("features") or {}).items())))
+        key = (v["kind"], v["site"], repr(sorted((v.get("features") or {}).items())))
         seen.setdefault(key, v)
     shrunk = []
     for key, v in list(seen.items())[:4]:
@@ -165,7 +165,7 @@ def cmd_check(a):
     lines = []
     reported = set()
     for v in shrunk:
-        key = (v["kind"], v.get("site"), tuple(sorted((v.get("features") or {}).items())))
+        key = (v["kind"], v.get("site"), repr(sorted((v.get("features") or {}).items())))
         if key in reported:
             continue
         reported.add(key)
